@@ -35,6 +35,8 @@ def big_scripts(rnd, quick):
     sc = []
     for n in ([65534, 65536, 65538, 70000] if quick else [32768, 65534, 65536, 65538, 70000, 131072, 131074, 200000, 262146]):
         sc.append('crcbig %d %d %d %d' % (rnd.choice([0, 0xFFFF, rnd.randint(0, 65535)]), n, rnd.choice([1, 7, 251]), rnd.randint(0, 255)))
+    # ... and of many MiB, more than any stack holds (a copy of the input in an automatic array shows only there)
+    sc.append('crchuge %d %d %d %d' % (rnd.randint(0, 65535), 12 if quick else 48, rnd.choice([1, 7, 251]), rnd.randint(0, 255)))
     return [sc]
 
 
